@@ -1027,7 +1027,7 @@ def partial_eval(e, env):
 
 
 
-def enumerate_segments(fn, module, call_effects=None, max_paths=MAX_PATHS):
+def enumerate_segments(fn, module, call_effects=None, max_paths=MAX_PATHS, seed=None):
     """Loop-free segments: paths from the entry and from every loop header to a return or to the next arrival at
     a loop header.  SSA values defined before a segment are fresh symbols ('sym', name); memory is unknown at the
     start of a segment.  Returns [(start block name, Path)], with path.end in {'ret','unreachable','cut:<block>'}."""
@@ -1038,6 +1038,10 @@ def enumerate_segments(fn, module, call_effects=None, max_paths=MAX_PATHS):
     for start in [fn.entry.name] + sorted(h for h in heads if h != fn.entry.name):
         p0 = Path(fn, module, eff)
         p0.allow_sym = start != fn.entry.name
+        if seed and start != fn.entry.name:
+            # memory facts the caller has established as invariants at every loop header: {pointer expression: (value, size)}
+            for ptr, (val, size) in seed.items():
+                p0.mem[p0._mkey(ptr)] = (val, size)
         stack = [(p0, fn.blocks[start], None, True)]
         while stack:
             path, blk, pred, first = stack.pop()
